@@ -38,9 +38,9 @@ namespace verif_ring {
     struct coroutine
     {
         ucontext_t              ctx;
-        std::vector< char >     stack;
+        char*                   stack = nullptr;        // one of the two static stacks below
+        std::size_t             stack_size = 0;
         void*                   fake_stack = nullptr;
-        bool                    started = false;
     };
 
     struct scheduler
@@ -77,7 +77,7 @@ namespace verif_ring {
     void resume( coroutine& c )
     {
         sched.running = &c;
-        VERIF_FIBER_START( &sched.main_fake_stack, c.stack.data(), c.stack.size() );
+        VERIF_FIBER_START( &sched.main_fake_stack, c.stack, c.stack_size );
         swapcontext( &sched.main_ctx, &c.ctx );
         VERIF_FIBER_FINISH( sched.main_fake_stack, nullptr, nullptr );
     }
@@ -233,20 +233,29 @@ namespace {
             }
         }
 
-        void make( verif_ring::coroutine& c, void (*fn)() )
+        // The two coroutine stacks are allocated once and reused by every case: only the newest
+        // subject's coroutines are ever resumed, the frames of an abandoned call are simply dropped
+        // (AddressSanitizer clears the shadow of a context's stack when it is switched to).
+        static const std::size_t stack_size = 128 * 1024;
+
+        void make( verif_ring::coroutine& c, void (*fn)(), int which )
         {
-            c.stack.assign( 256 * 1024, 0 );
+            static char* stacks[ 2 ] = { nullptr, nullptr };
+            if ( !stacks[ which ] )
+                stacks[ which ] = static_cast< char* >( std::malloc( stack_size ) );
+            c.stack = stacks[ which ];
+            c.stack_size = stack_size;
             getcontext( &c.ctx );
-            c.ctx.uc_stack.ss_sp = c.stack.data();
-            c.ctx.uc_stack.ss_size = c.stack.size();
+            c.ctx.uc_stack.ss_sp = c.stack;
+            c.ctx.uc_stack.ss_size = c.stack_size;
             c.ctx.uc_link = nullptr;
             makecontext( &c.ctx, fn, 0 );
         }
 
         void start()
         {
-            make( prod, &prod_main );
-            make( cons, &cons_main );
+            make( prod, &prod_main, 0 );
+            make( cons, &cons_main, 1 );
         }
 
         std::string op( const std::vector< std::string >& w ) override
